@@ -342,6 +342,10 @@ def pool_items(quick):
     y3000 = int((datetime.datetime(3000, 1, 1, tzinfo=datetime.timezone.utc) - datetime.datetime(1970, 1, 1, tzinfo=datetime.timezone.utc)).total_seconds())
     add("time", tm('time.parse_time("3000-01-01T00:00:00Z")', y3000))
     add("time", tm('time.parse_time("3000-01-01T05:30:00+05:30")', y3000))
+    # instants more than 2^63 ns apart from one another (all inside the int64 nanosecond range)
+    for year, q in ((1700, True), (1950, True), (2200, True), (2261, False), (1680, False)):
+        secs = int((datetime.datetime(year, 1, 1, tzinfo=datetime.timezone.utc) - datetime.datetime(1970, 1, 1, tzinfo=datetime.timezone.utc)).total_seconds())
+        add("time", tm('time.parse_time("%d-01-01T00:00:00Z")' % year, secs), q)
     add("duration", dur('time.parse_duration("1h")', 3600 * 10 ** 9), True)
     add("duration", dur('time.parse_duration("60m")', 3600 * 10 ** 9), True)
     add("duration", dur('time.parse_duration("1s")', 10 ** 9)); add("duration", dur('time.parse_duration("0s")', 0))
